@@ -113,6 +113,7 @@ def run(chk):
         runs += extra
     monitor_all(chk, runs)
     two_instances_monitor(chk)
+    system_cap_monitor(chk)
     chk.extra["rule"] = "theorems of Properties/C03.lean over the regenerated constants; correspondence sequences and monitor traces generated from VERIF_SEED"
     chk.extra["distinct_nontrivial"] = len(runs)
 
@@ -167,7 +168,58 @@ def two_instances_monitor(chk):
         chk.violation("cap-exceeded-with-two-instances", f"pump energised {b['energised_s']:.1f} s within one security window (cap {b['cap_s']:.0f} s) while a second PWM instance idles with ticks {b['phase_s']} s out of phase", {"kind": "pwm-two-instances", "case": b})
 
 
+def system_cap_monitor(chk):
+    """C03 on the real COMPOSED system: the histories of the `halt_in_young_pulse` corpus family (a halt / mode change in the first
+    seconds of a dosing pulse) and a long dosing day, each followed by hours; the energised time of each dosing pin inside any
+    24 h window must stay below the cap + one PWM period — a pump that is left on by the stop path is counted like any other"""
+    import glob
+    import os
+
+    from sim import scenario
+    from vlib.common import VERIF
+
+    import configparser
+    cp = configparser.ConfigParser()
+    from vlib.common import REPO
+    cp.read([os.path.join(REPO, "config.ini"), os.path.join(REPO, "config.ini.local")])
+    cap = float(cp.get("disinfection", "security_duration"))
+    files = sorted(glob.glob(os.path.join(VERIF, "corpus", "halt_in_young_pulse_*.json")))
+    if chk.tier == "quick":
+        files = files[::2]
+    n, bad = 0, None
+    for f in files:
+        sc = json.load(open(f))
+        acts = list(sc["actions"]) + [["run", 4 * 3600]]
+        r = scenario.Runner(sc["opts"], [])
+        for a in acts:
+            r.do(a)
+        for pump in ("ph", "cl"):
+            pin = r.sys.pins[pump][0]
+            on_since, total, longest = None, 0.0, 0.0
+            for (t, kind, data) in r.world.log:
+                if kind == "gpio" and data[0] == pin:
+                    if data[1] is False and on_since is None:
+                        on_since = t
+                    elif data[1] is True and on_since is not None:
+                        total += (t - on_since) / 1e6
+                        longest = max(longest, (t - on_since) / 1e6)
+                        on_since = None
+            if on_since is not None:
+                total += (r.world.now_us - on_since) / 1e6
+                longest = max(longest, (r.world.now_us - on_since) / 1e6)
+            n += 1
+            if total > cap + 120 + 2 and bad is None:  # the whole run is shorter than 24 h: one window
+                bad = (os.path.basename(f), pump, total, longest, acts)
+        r.world.close()
+    chk.correspondence("C03 monitor on the real composed system: dosing pins energised ≤ cap + one period within the run (halt / mode change in the first seconds of a pulse, then 4 h)", n, 0 if bad is None else 1,
+                       detail=None if bad is None else {"scenario": bad[0], "pump": bad[1], "energised_s": bad[2]})
+    if bad is not None:
+        chk.violation("pwm-cap-exceeded-on-system", f"{bad[1]} dosing pump energised {bad[2]:.0f} s (longest stretch {bad[3]:.0f} s) within {4 * 3600 + 1600} s of the history {bad[0]} + 4 h; the cap is {cap:.0f} s per 24 h",
+                      {"kind": "scenario", "scenario": {"opts": json.load(open(os.path.join(VERIF, 'corpus', bad[0])))["opts"], "actions": bad[4]}})
+
+
 def search(chk):
+    system_cap_monitor(chk)
     two_instances_monitor(chk)
     """Monitor only (used when the machinery itself broke on this tree)."""
     rng, pl = plan(chk)
@@ -182,6 +234,9 @@ def replay(path):
     with open(path) as fh:
         data = json.load(fh)
     rep = data.get("replay", data)
+    if rep.get("kind") == "scenario":
+        from checks import actors_common as ac
+        return ac.replay(path)
     if rep.get("kind") == "pwm-two-instances":
         from vlib.common import Check
 
